@@ -125,7 +125,7 @@ fn eq_forms(a_u: &UnionCal, b_u: &UnionCal, a_c: Option<&Cal>, b_c: Option<&Cal>
     v
 }
 
-const N_EQ: u32 = 44;
+const N_EQ: u32 = 54;
 
 /// returns (description, expected equal?, comparisons)
 fn equality_scenario(id: u32) -> Option<(String, bool, Vec<(String, bool)>)> {
@@ -247,6 +247,36 @@ fn equality_scenario(id: u32) -> Option<(String, bool, Vec<(String, bool)>)> {
             a1.push(sat);
             let b = UnionCal::new(vec![cal_of(&a1), cal_of(&h2)], Some(vec![cal_of(&h3)]));
             Some(("member holiday added on a day the week mask already closes".into(), true, eq_forms(&base_u, &b, None, None, None, None)))
+        }
+        42..=53 => {
+            // a built-in calendar against the same calendar DESCRIBED differently (a plain Cal on either side):
+            // weekend-dated holidays dropped / a holiday outside 1970-2200 added / holidays listed twice in reverse
+            let k = (id - 42) as usize;
+            let name = ["tgt", "ldn", "nyc", "bus"][k / 3];
+            let n = NamedCal::try_new(name).unwrap();
+            let c = get_calendar_by_name(name).unwrap();
+            let mut hs: Vec<i64> = (days_from_civil(1969, 1, 1)..=days_from_civil(2201, 12, 31)).filter(|z| c.is_holiday(&to_ndt(*z))).collect();
+            let what = match k % 3 {
+                0 => {
+                    hs.retain(|z| weekday(*z) < 5);
+                    hs.push(days_from_civil(2024, 6, 1)); // a Saturday: already closed by the week mask
+                    "weekend-dated holidays dropped, one Saturday holiday added"
+                }
+                1 => {
+                    hs.push(days_from_civil(2201, 1, 5));
+                    hs.push(days_from_civil(1969, 12, 30));
+                    "holidays outside 1970-2200 added"
+                }
+                _ => {
+                    let rev: Vec<i64> = hs.iter().rev().cloned().collect();
+                    hs.extend(rev);
+                    "every holiday listed twice, the second time in reverse"
+                }
+            };
+            let c2 = cal_of(&hs);
+            let u2 = UnionCal::new(vec![c2.clone()], None);
+            let un = UnionCal::new(vec![c.clone()], None);
+            Some((format!("{} vs a plain Cal of the same days ({})", name, what), true, eq_forms(&un, &u2, Some(&c), Some(&c2), Some(&n), Some(&n))))
         }
         _ => None,
     }
@@ -538,7 +568,7 @@ pub fn run(ctx: &Ctx, replay_file: Option<String>) -> ! {
          single built-in calendars on is_bus_day and is_settlement for EVERY date 1970-2200. (c) every token string of \
          length <= 5 (6) over {tgt, ldn, zzz, ',', '|'}: accepted iff list('|' list)? with known non-empty names; \
          never a panic. (d) equality scenarios across Cal / UnionCal / NamedCal in both argument orders: same \
-         behaviour built differently is equal; one business-day or settlement bit of difference at 1970-01-01, \
+         behaviour built differently is equal (incl. tgt, ldn, nyc, bus against a plain Cal of the same days with weekend-dated holidays dropped, out-of-range holidays added, or every holiday listed twice); one business-day or settlement bit of difference at 1970-01-01, \
          1970-01-02, 2015-09-08, 2200-12-30, 2200-12-31 is unequal; a difference only at 1969-12-31 or 2201-01-01 is \
          equal; a one-day difference at Jan 1, Feb 28/29, Mar 1, Dec 30, Dec 31 of EVERY year 1970-2200 (thorough: at every \
          day of every fourth year) is unequal. Non-trivial: unions whose members disagree on some date, names with >= 2 parts, rejected strings.",
